@@ -7,7 +7,9 @@
 (* replayed from the cache in every later round; the LEFT side is the loop *)
 (* stream (NL producers, ROUNDS rounds, then Terminate).                   *)
 (*                                                                         *)
-(* Actions follow the code:                                                *)
+(* The receiver and Start are the functions of comp/BinaryStart.tla (the   *)
+(* same module trace/BinaryConform.tla replays real replicas through): the *)
+(* state `st` is its record.  Actions follow the code:                     *)
 (*   SendL / SendS   a producer puts one message (one element) into the    *)
 (*                   channel of its side (any interleaving; the loop side  *)
 (*                   is round-synchronised, see comp/Start.tla)            *)
@@ -28,10 +30,10 @@
 (* completely and exactly once, identically; Terminate comes once, last;   *)
 (* the loop terminates.                                                    *)
 (***************************************************************************)
-EXTENDS Naturals, Integers, Sequences, FiniteSets, TLC, SequencesExt, Functions
+EXTENDS Naturals, Integers, Sequences, FiniteSets, TLC, SequencesExt, Functions, BinaryStart
 
-CONSTANTS NL,      \* producers of the loop side
-          NS,      \* producers of the side input
+CONSTANTS NL,      \* producers of the loop side (LEFT, not cached)
+          NS,      \* producers of the side input (RIGHT, cached)
           SD,      \* data items per side producer
           LD,      \* data items per loop producer per round
           ROUNDS,  \* rounds of the loop
@@ -41,34 +43,24 @@ CONSTANTS NL,      \* producers of the loop side
 
 LP == 1..NL
 SP == 1..NS
-El(k, v) == [k |-> k, v |-> v]      \* k: "L" "R" data, "LE" "RE" end-of-side markers, "FR", "X", "B"
 
 VARIABLES
   (* producers *)
   lRound, lData, lDone,     \* loop producer: completed rounds, data sent this round, Terminate sent
   sData, sStage,            \* side producer: data sent, "data" | "restarted" | "done"
-  chL, chS,                 \* the two channels: sequences of elements
-  (* BinaryStartReceiver *)
-  lMissR, lMissX, sMissR, sMissX,
-  cache, cacheFull, cachePtr, firstMsg,
-  (* Start *)
-  batch,                    \* elements of the current batch still to pop
-  missR, missX, timedOut,
+  chL, chS,                 \* the two channels: sequences of one-element messages
+  st,                       \* BinaryStartReceiver + Start (comp/BinaryStart.tla)
   (* observation *)
   out,                      \* what the operators of the block have seen
   emittedR                  \* FlushAndRestart emitted by Start
-vars == <<lRound, lData, lDone, sData, sStage, chL, chS, lMissR, lMissX, sMissR, sMissX,
-          cache, cacheFull, cachePtr, firstMsg, batch, missR, missX, timedOut, out, emittedR>>
+vars == <<lRound, lData, lDone, sData, sStage, chL, chS, st, out, emittedR>>
 pvars == <<lRound, lData, lDone, sData, sStage>>
-rvars == <<lMissR, lMissX, sMissR, sMissX, cache, cacheFull, cachePtr, firstMsg>>
 
 Init ==
   /\ lRound = [p \in LP |-> 0] /\ lData = [p \in LP |-> 0] /\ lDone = [p \in LP |-> FALSE]
   /\ sData = [p \in SP |-> 0] /\ sStage = [p \in SP |-> "data"]
   /\ chL = <<>> /\ chS = <<>>
-  /\ lMissR = NL /\ lMissX = NL /\ sMissR = NS /\ sMissX = NS
-  /\ cache = <<>> /\ cacheFull = FALSE /\ cachePtr = 0 /\ firstMsg = FALSE
-  /\ batch = <<>> /\ missR = NL + NS /\ missX = NL + NS /\ timedOut = FALSE
+  /\ st = BSInit(NL, NS, FALSE, TRUE)
   /\ out = <<>> /\ emittedR = 0
 
 ---------------------------------------------------------------------------
@@ -77,7 +69,7 @@ Init ==
 SendL(p) ==
   /\ ~lDone[p] /\ lRound[p] <= emittedR
   /\ \/ /\ lRound[p] < ROUNDS /\ lData[p] < LD
-        /\ chL' = Append(chL, El("L", 100 * p + lData[p]))
+        /\ chL' = Append(chL, El("I", 100 * p + lData[p]))
         /\ lData' = [lData EXCEPT ![p] = @ + 1] /\ UNCHANGED <<lRound, lDone>>
      \/ /\ lRound[p] < ROUNDS
         /\ chL' = Append(chL, El("FR", 0))
@@ -85,12 +77,12 @@ SendL(p) ==
      \/ /\ lRound[p] = ROUNDS
         /\ chL' = Append(chL, El("X", 0))
         /\ lDone' = [lDone EXCEPT ![p] = TRUE] /\ UNCHANGED <<lRound, lData>>
-  /\ UNCHANGED <<sData, sStage, chS, rvars, batch, missR, missX, timedOut, out, emittedR>>
+  /\ UNCHANGED <<sData, sStage, chS, st, out, emittedR>>
 
 SendS(p) ==
   /\ sStage[p] # "done"
   /\ \/ /\ sStage[p] = "data" /\ sData[p] < SD
-        /\ chS' = Append(chS, El("R", 10 * p + sData[p]))
+        /\ chS' = Append(chS, El("I", 10 * p + sData[p]))
         /\ sData' = [sData EXCEPT ![p] = @ + 1] /\ UNCHANGED sStage
      \/ /\ sStage[p] = "data" /\ sData[p] = SD
         /\ chS' = Append(chS, El("FR", 0))
@@ -98,140 +90,61 @@ SendS(p) ==
      \/ /\ sStage[p] = "restarted"
         /\ chS' = Append(chS, El("X", 0))
         /\ sStage' = [sStage EXCEPT ![p] = "done"] /\ UNCHANGED sData
-  /\ UNCHANGED <<lRound, lData, lDone, chL, rvars, batch, missR, missX, timedOut, out, emittedR>>
+  /\ UNCHANGED <<lRound, lData, lDone, chL, st, out, emittedR>>
 
 ---------------------------------------------------------------------------
-(* BinaryStartReceiver *)
-LEnded == lMissR = 0                 \* not cached: ended when all FlushAndRestart arrived
-SEnded == sMissX = 0                 \* cached: ended only when terminated
-LTerm == lMissX = 0
-STerm == sMissX = 0
-CacheFinished == cachePtr >= Len(cache)
+Running == st.missX > 0    \* Start::next returns Terminate for ever once missing_terminate = 0
 
-(* process_side for the loop side: one message with one element -> the batch handed to Start *)
-ProcL(e) ==
-  LET mr == IF e.k = "FR" THEN lMissR - 1 ELSE lMissR IN
-  [msg |-> (IF e.k = "FR" /\ mr = 0 THEN <<El("LE", 0)>> ELSE <<>>) \o <<e>>,
-   missR |-> mr, missX |-> IF e.k = "X" THEN lMissX - 1 ELSE lMissX]
-(* process_side for the cached side: Terminate is swallowed, the message is appended to the cache *)
-ProcS(e) ==
-  LET mr == IF e.k = "FR" THEN sMissR - 1 ELSE sMissR IN
-  [msg |-> (IF e.k = "FR" /\ mr = 0 THEN <<El("RE", 0)>> ELSE <<>>) \o (IF e.k = "X" THEN <<>> ELSE <<e>>),
-   missR |-> mr, missX |-> IF e.k = "X" THEN sMissX - 1 ELSE sMissX]
-
-(* The state of the receiver after the `reset` that select performs first (or unchanged) *)
-NeedReset == LEnded /\ SEnded /\ CacheFinished
-AfterReset ==
-  IF NeedReset THEN [lMissR |-> NL, sMissR |-> NS, cacheFull |-> TRUE, cachePtr |-> 0, firstMsg |-> TRUE]
-  ELSE [lMissR |-> lMissR, sMissR |-> sMissR, cacheFull |-> cacheFull, cachePtr |-> cachePtr, firstMsg |-> firstMsg]
-
-(* Which source does `select` read from, given the state s after the optional reset?             *)
-(*   "synth"  both sides terminated: the Terminates of the cached side are synthesised           *)
-(*   "L"/"S"  receive from that channel only       "LS" select on both                           *)
-(*   "cache"  next cached message                                                                *)
-Choice(s) ==
-  IF LTerm /\ STerm THEN "synth"
-  ELSE IF s.firstMsg THEN "Lfirst"
-  ELSE IF s.cacheFull /\ s.cachePtr < Len(cache) /\ ~(FIXED8 /\ lMissX < NL) THEN "cache"
-  ELSE IF s.lMissR = 0 THEN "S"
-  ELSE IF SEnded THEN "L"
-  ELSE IF LTerm THEN "S" ELSE IF STerm THEN "L" ELSE "LS"
-
-(* Start hands a batch to itself *)
-TakeL(s, first) ==
-  /\ chL # <<>>
-  /\ LET pr == ProcL(Head(chL)) IN
-     /\ batch' = pr.msg
-     /\ lMissR' = IF Head(chL).k = "FR" THEN s.lMissR - 1 ELSE s.lMissR
-     /\ lMissX' = pr.missX
-     /\ chL' = Tail(chL)
-  /\ sMissR' = s.sMissR /\ cacheFull' = s.cacheFull /\ cachePtr' = s.cachePtr
-  /\ firstMsg' = IF first THEN FALSE ELSE s.firstMsg
-  /\ UNCHANGED <<chS, sMissX, cache>>
-
-TakeS(s) ==
-  /\ chS # <<>>
-  /\ LET e == Head(chS)
-         mr == IF e.k = "FR" THEN s.sMissR - 1 ELSE s.sMissR
-         msg == (IF e.k = "FR" /\ mr = 0 THEN <<El("RE", 0)>> ELSE <<>>) \o (IF e.k = "X" THEN <<>> ELSE <<e>>)
-     IN /\ batch' = msg
-        /\ sMissR' = mr
-        /\ sMissX' = IF e.k = "X" THEN sMissX - 1 ELSE sMissX
-        /\ cache' = Append(cache, msg)
-        /\ cachePtr' = Len(cache) + 1
-        /\ chS' = Tail(chS)
-  /\ lMissR' = s.lMissR /\ cacheFull' = s.cacheFull /\ firstMsg' = s.firstMsg
-  /\ UNCHANGED <<chL, lMissX>>
-
-TakeCache(s) ==
-  /\ batch' = cache[s.cachePtr + 1]
-  /\ cachePtr' = s.cachePtr + 1
-  (* "Items are simply returned, so flush and restarts are not counted properly. Just make sure *)
-  (* that when the cache ends the counter is zero."                                             *)
-  /\ sMissR' = IF s.cachePtr + 1 >= Len(cache) THEN 0 ELSE s.sMissR
-  /\ lMissR' = s.lMissR /\ cacheFull' = s.cacheFull /\ firstMsg' = s.firstMsg
-  /\ UNCHANGED <<chL, chS, lMissX, sMissX, cache>>
-
-Synth(s) ==
-  /\ batch' = [i \in 1..NS |-> El("X", 0)]
-  /\ lMissR' = s.lMissR /\ sMissR' = s.sMissR /\ cacheFull' = s.cacheFull /\ cachePtr' = s.cachePtr
-  /\ firstMsg' = s.firstMsg
-  /\ UNCHANGED <<chL, chS, lMissX, sMissX, cache>>
-
-Running == missX > 0    \* Start::next returns Terminate for ever once missing_terminate = 0
-
-(* Start::next with an empty batch: receive (blocking, or before the timeout expires) *)
+(* Start::next with an empty batch: `select` (blocking, or before the timeout expires) *)
 Next_Recv ==
-  /\ Running /\ missR > 0 /\ batch = <<>>
-  /\ LET s == AfterReset
-         c == Choice(s)
-     IN CASE c = "synth"  -> Synth(s)
-          [] c = "Lfirst" -> TakeL(s, TRUE)
-          [] c = "cache"  -> TakeCache(s)
-          [] c = "L"      -> TakeL(s, FALSE)
-          [] c = "S"      -> TakeS(s)
-          [] c = "LS"     -> TakeL(s, FALSE) \/ TakeS(s)
-  /\ timedOut' = FALSE
-  /\ UNCHANGED <<pvars, missR, missX, out, emittedR>>
+  /\ Running /\ st.missR > 0 /\ st.batch = <<>>
+  /\ LET r == AfterReset(st)
+         c == ChoiceX(r, FIXED8)
+     IN CASE c[1] = "synth" -> st' = [r EXCEPT !.batch = SynthBatch(r), !.timedOut = FALSE] /\ UNCHANGED <<chL, chS>>
+          [] c[1] = "cache" -> st' = [FromCache(r, c[2]) EXCEPT !.timedOut = FALSE] /\ UNCHANGED <<chL, chS>>
+          [] c[1] = "recv"  ->
+               \/ /\ "L" \in c[2] /\ chL # <<>>
+                  /\ st' = [Received(r, "L", <<Head(chL)>>, c[3]) EXCEPT !.timedOut = FALSE]
+                  /\ chL' = Tail(chL) /\ UNCHANGED chS
+               \/ /\ "R" \in c[2] /\ chS # <<>>
+                  /\ st' = [Received(r, "R", <<Head(chS)>>, c[3]) EXCEPT !.timedOut = FALSE]
+                  /\ chS' = Tail(chS) /\ UNCHANGED chL
+          [] OTHER -> FALSE
+  /\ UNCHANGED <<pvars, out, emittedR>>
 
 (* the receive times out: only possible when Start used recv_timeout (not right after a timeout) *)
 (* and nothing is available where select looks                                                  *)
 Next_Timeout ==
-  /\ TIMEOUTS /\ Running /\ missR > 0 /\ batch = <<>> /\ ~timedOut
-  /\ LET s == AfterReset
-         c == Choice(s)
-     IN /\ c \in {"Lfirst", "L", "S", "LS"}
-        /\ (c \in {"Lfirst", "L"} => chL = <<>>) /\ (c = "S" => chS = <<>>)
-        /\ (c = "LS" => chL = <<>> /\ chS = <<>>)
-        /\ lMissR' = s.lMissR /\ sMissR' = s.sMissR /\ cacheFull' = s.cacheFull /\ cachePtr' = s.cachePtr
-        (* before the repair the flag was cleared before the receive *)
-        /\ firstMsg' = IF c = "Lfirst" /\ ~FIXED THEN FALSE ELSE s.firstMsg
-  /\ timedOut' = TRUE
+  /\ TIMEOUTS /\ Running /\ st.missR > 0 /\ st.batch = <<>> /\ ~st.timedOut
+  /\ LET r == AfterReset(st)
+         c == ChoiceX(r, FIXED8)
+     IN /\ c[1] = "recv"
+        /\ ("L" \in c[2] => chL = <<>>) /\ ("R" \in c[2] => chS = <<>>)
+        (* before the repair of F10 the flag was cleared before the receive *)
+        /\ st' = [r EXCEPT !.timedOut = TRUE, !.first = IF c[3] /\ ~FIXED THEN FALSE ELSE @]
   /\ out' = Append(out, El("B", 0))
-  /\ UNCHANGED <<pvars, chL, chS, lMissX, sMissX, cache, batch, missR, missX, emittedR>>
+  /\ UNCHANGED <<pvars, chL, chS, emittedR>>
 
 (* Start::next pops one element of the current batch *)
 Next_Pop ==
-  /\ Running /\ missR > 0 /\ batch # <<>>
-  /\ LET e == Head(batch) IN
-     /\ batch' = Tail(batch)
-     /\ missR' = IF e.k = "FR" THEN missR - 1 ELSE missR
-     /\ missX' = IF e.k = "X" THEN missX - 1 ELSE missX
-     /\ out' = IF e.k \in {"FR", "X"} THEN out ELSE Append(out, e)
-  /\ UNCHANGED <<pvars, chL, chS, rvars, timedOut, emittedR>>
+  /\ Running /\ st.missR > 0 /\ st.batch # <<>>
+  /\ LET e == Head(st.batch) IN
+     IF e.k \in {"FR", "X"} THEN st' = PopMarker(st) /\ out' = out
+     ELSE st' = [st EXCEPT !.batch = Tail(@)] /\ out' = Append(out, e)
+  /\ UNCHANGED <<pvars, chL, chS, emittedR>>
 
 (* Start::next: all FlushAndRestart of the round counted *)
 Next_EmitR ==
-  /\ Running /\ missR = 0
-  /\ missR' = NL + NS /\ emittedR' = emittedR + 1
+  /\ Running /\ st.missR = 0
+  /\ st' = [st EXCEPT !.missR = st.n] /\ emittedR' = emittedR + 1
   /\ out' = Append(out, El("FR", 0))
-  /\ UNCHANGED <<pvars, chL, chS, rvars, batch, missX, timedOut>>
+  /\ UNCHANGED <<pvars, chL, chS>>
 
 (* Start::next: all Terminate counted: the operator chain sees Terminate *)
 Next_EmitX ==
-  /\ missX = 0 /\ (out = <<>> \/ out[Len(out)].k # "X")
+  /\ st.missX = 0 /\ (out = <<>> \/ out[Len(out)].k # "X")
   /\ out' = Append(out, El("X", 0))
-  /\ UNCHANGED <<pvars, chL, chS, rvars, batch, missR, missX, timedOut, emittedR>>
+  /\ UNCHANGED <<pvars, chL, chS, st, emittedR>>
 
 Next == (\E p \in LP : SendL(p)) \/ (\E p \in SP : SendS(p))
         \/ Next_Recv \/ Next_Timeout \/ Next_Pop \/ Next_EmitR \/ Next_EmitX
@@ -266,8 +179,9 @@ NothingAfterLastRound ==
   Len(Rounds.closed) = ROUNDS => \A j \in DOMAIN Rounds.open : Rounds.open[j].k = "X"
 TerminateOnce == Cardinality({j \in DOMAIN out : out[j].k = "X"}) <= 1
                /\ \A j \in DOMAIN out : out[j].k = "X" => j = Len(out)
-CountersOK == missR \in 0..(NL + NS) /\ missX \in 0..(NL + NS) /\ lMissR \in 0..NL /\ sMissR \in 0..NS
+CountersOK == /\ st.missR \in 0..(NL + NS) /\ st.missX \in 0..(NL + NS)
+              /\ st.L.missR \in 0..NL /\ st.R.missR \in 0..NS /\ st.L.missX \in 0..NL /\ st.R.missX \in 0..NS
 (* C04/C11: the loop terminates *)
-Terminated == out # <<>> /\ out[Len(out)].k = "X"
-EventuallyTerminates == <>Terminated
+OutTerminated == out # <<>> /\ out[Len(out)].k = "X"
+EventuallyTerminates == <>OutTerminated
 =============================================================================
